@@ -44,7 +44,7 @@ func c08Tree() afero.Fs {
 	afero.WriteFile(m, "/other/secret", []byte(canary+"3"), 0o644)
 	afero.WriteFile(m, "/secret", []byte(canary+"4"), 0o644)
 	afero.WriteFile(m, "/base.txt", []byte(canary+"5"), 0o644)
-	old := time.Unix(1000000, 0)
+	old := time.Unix(1000000, 987_654_321)
 	afero.Walk(m, "/", func(p string, fi os.FileInfo, err error) error { m.Chtimes(p, old, old); return nil })
 	return m
 }
